@@ -1,5 +1,6 @@
 from vlib.runner import KaniOb
 ASSUMPTIONS = [
+    "float-valued views and float constructors: decided to equal, bit for bit, the documented formula built from the exact duration view, the statement's constants and Duration::to_unit / Unit x f64 (whose rounding quality is C18's subject); this excludes a wrong constant, unit or scale for a whole family of inputs",
     "exact half only: duration-valued accessors are exact affine shifts with the constants of the statement (15020 d, 2400000.5 d, 3155716800 s, 1970-01-01); float-valued accessors: finiteness, sign, panic-freedom",
     "`within a few ulps` for float-valued views and the from_mjd/from_jde float round trips are outside: they need exact real arithmetic next to IEEE semantics (SAT encodings of the multiply/divide chains did not finish); ET/TDB variants outside (C07)",
     "to_unix_duration is private: reached through an add-only accessor in the verified copy (never in /repo)",
@@ -12,6 +13,15 @@ def obligations(tier, seed):
         KaniOb("c17", "c17_utc_views", "JD(UTC) and UNIX duration are affine in the UTC elapsed time (leap seconds not counted); from_unix_duration inverts to_unix_duration",
                ["Epoch::to_jde_utc_duration", "Epoch::to_unix_duration", "Epoch::from_unix_duration", "UNIX_REF_EPOCH", "Epoch::to_time_scale (UTC arms)"],
                "UTC epochs 1900-2100 at ns resolution; unwind 44", tq=1800),
+        KaniOb("c17", "c17_float_views_definition", "every float-valued MJD / JD / TAI / TT view equals, bit for bit, the exact duration view rendered by Duration::to_unit in the requested unit (no wrong constant, unit or scale)",
+               ["Epoch::to_mjd_tai(+_days,_seconds)", "Epoch::to_jde_tai(+_days,_seconds)", "Epoch::to_tai / to_tai_seconds / to_tai_days", "Epoch::to_tt_seconds / to_tt_days", "Epoch::to_jde_tt_days / to_mjd_tt_days", "Epoch::to_tt_centuries_j2k", "Duration::to_unit"],
+               "TAI epochs, |centuries| < 110, ns resolution x nine units", tq=2400),
+        KaniOb("c17", "c17_float_views_utc_definition", "float-valued UTC, MJD(UTC), JD(UTC) and UNIX views of a UTC epoch equal the exact duration view rendered by to_unit",
+               ["Epoch::to_mjd_utc(+_days,_seconds)", "Epoch::to_jde_utc_days / _seconds", "Epoch::to_utc / to_utc_seconds / to_utc_days", "Epoch::to_unix(+_seconds,_milliseconds,_days)"],
+               "UTC epochs, |centuries| < 110 x nine units", tq=2400),
+        KaniOb("c17", "c17_float_constructors_definition", "constructors from a float MJD / JD / UNIX / elapsed value build exactly (x - constant) x unit in the requested scale, for every finite f64",
+               ["Epoch::from_mjd_in_time_scale (+6 wrappers)", "Epoch::from_jde_in_time_scale (+6 wrappers)", "Epoch::from_tai_seconds/_days", "Epoch::from_utc_seconds/_days", "Epoch::from_unix_seconds/_milliseconds", "impl Mul<f64> for Unit"],
+               "every finite f64 (2^64 bit patterns) x six uniform scales", tq=2400),
         KaniOb("c17", "c17_float_views_total", "float-valued views: finite, no panic, sign of the exact value", ["Epoch::to_tai_seconds / to_tai_days / to_mjd_tai_days / to_jde_tai_days", "Duration::to_seconds", "Duration::to_unit"],
                "TAI epochs, |centuries| < 110", tq=900),
     ]
